@@ -1907,3 +1907,370 @@ def gen_Validation(repo):
     L.append("def stateIndexSources : List (String × String) := %s" % lean_list(["(%s, %s)" % (lean_str(a), lean_str(b)) for a, b in assigns]))
     L.append("\nend Strengths.Gen")
     return "\n".join(L) + "\n"
+
+
+# =============================================================================================
+# C17 : RDTrajectory accessors (slices, flat index) and the three sample-index lookups
+# =============================================================================================
+def _norm(src, node):
+    return re.sub(r"\s+", "", src.seg(node))
+
+
+def _lookup_fn(out, name):
+    """translate one `_get_sample_index_*` method: guards before the loop, loop condition, returned index"""
+    fn = out.func(name, "RDTrajectory")
+    names = {"t": "t", "self.t.get_at(0)": "t0", "self.t.get_at(self.nsamples()-1)": "tl",
+             "self.t.get_at(i)": "a", "self.t.get_at(i+1)": "b"}
+
+    def ret_expr(node, in_loop):
+        """`none` | `(some (walk, index))`; walk = the value goes through `self._first_sample_with_same_time(…)`"""
+        if not isinstance(node, ast.Return):
+            raise AnchorLost("rdoutput.py:%s expected return" % name)
+        v = node.value
+        if v is None or (isinstance(v, ast.Constant) and v.value is None):
+            return "none"
+        walk = "false"
+        if isinstance(v, ast.Call) and _norm(out, v.func) == "self._first_sample_with_same_time" and len(v.args) == 1 and not v.keywords:
+            walk = "true"
+            v = v.args[0]
+        txt = _norm(out, v)
+        if isinstance(v, ast.Constant) and isinstance(v.value, int) and not isinstance(v.value, bool) and v.value >= 0:
+            return "(some (%s, %d))" % (walk, v.value)
+        if txt == "self.nsamples()-1":
+            return "(some (%s, n - 1))" % walk
+        if in_loop and txt == "i":
+            return "(some (%s, i))" % walk
+        if in_loop and re.fullmatch(r"i\+(\d+)", txt):
+            return "(some (%s, i + %s))" % (walk, txt[2:])
+        raise AnchorLost("rdoutput.py:%s return value %s" % (name, txt))
+
+    pre, loop = [], None
+    body = [s for s in fn.body if not (isinstance(s, ast.Expr) and isinstance(s.value, ast.Constant))]
+    for st in body:
+        if isinstance(st, ast.If) and loop is None:
+            if st.orelse or len(st.body) != 1:
+                raise AnchorLost("rdoutput.py:%s guard shape" % name)
+            test = _norm(out, st.test)
+            if test == "len(self.t)==0":
+                cond = "(n == 0)"
+            else:
+                cond = ExprTr(out, names).tr(st.test)
+            pre.append((cond, ret_expr(st.body[0], False)))
+        elif isinstance(st, ast.For) and loop is None:
+            if _norm(out, st.iter) != "range(self.nsamples()-1)" or _norm(out, st.target) != "i" or st.orelse:
+                raise AnchorLost("rdoutput.py:%s loop header" % name)
+            if len(st.body) != 1 or not isinstance(st.body[0], ast.If) or st.body[0].orelse:
+                raise AnchorLost("rdoutput.py:%s loop body" % name)
+            inner = st.body[0]
+            cond = ExprTr(out, names).tr(inner.test)
+            loc = dict(names)
+            ret = None
+            for s2 in inner.body:
+                if isinstance(s2, ast.Assign) and len(s2.targets) == 1 and isinstance(s2.targets[0], ast.Name):
+                    loc[s2.targets[0].id] = ExprTr(out, loc).tr(s2.value)
+                elif isinstance(s2, ast.Return):
+                    ret = ret_expr(s2, True)
+                elif isinstance(s2, ast.If) and len(s2.body) == 1 and len(s2.orelse) == 1:
+                    ret = "(if %s then %s else %s)" % (ExprTr(out, loc).tr(s2.test), ret_expr(s2.body[0], True),
+                                                      ret_expr(s2.orelse[0], True))
+                else:
+                    raise AnchorLost("rdoutput.py:%s loop statement" % name)
+            if ret is None:
+                raise AnchorLost("rdoutput.py:%s loop return" % name)
+            loop = (cond, ret)
+        else:
+            raise AnchorLost("rdoutput.py:%s unexpected statement" % name)
+    if loop is None or not pre:
+        raise AnchorLost("rdoutput.py:%s guards / loop" % name)
+    return pre, loop
+
+
+@group
+def gen_TrajPy(repo):
+    out = PySrc(repo, "src/strengths/rdoutput.py")
+    L = ["namespace Strengths.Gen\n"]
+    for tag, name in (("closest", "_get_sample_index_closest"), ("infeq", "_get_sample_index_infeq"),
+                      ("supeq", "_get_sample_index_supeq")):
+        pre, (cond, ret) = _lookup_fn(out, name)
+        chain = "".join("if %s then some %s else " % (c, r) for c, r in pre) + "none"
+        L.append("/-- `RDTrajectory.%s`: the `if … : return …` statements before the loop (n = number of samples,\n"
+                 "t0 / tl = first / last sample time); `none` = falls through to the loop -/" % name)
+        L.append("def %sPre (n : Nat) (t t0 tl : Rat) : Option (Option (Bool × Nat)) := %s" % (tag, chain))
+        L.append("/-- loop `for i in range(self.nsamples()-1)`: test on a = t[i], b = t[i+1] -/")
+        L.append("def %sCond (t a b : Rat) : Bool := %s" % (tag, cond))
+        L.append("/-- value returned by the loop body at index i: (passed through `_first_sample_with_same_time`?, index) -/")
+        L.append("def %sRet (i : Nat) (t a b : Rat) : Option (Bool × Nat) := %s\n" % (tag, ret))
+    # _first_sample_with_same_time: `while <cond> : i -= 1` then `return i`
+    fs = out.func("_first_sample_with_same_time", "RDTrajectory")
+    fbody = [x for x in fs.body if not (isinstance(x, ast.Expr) and isinstance(x.value, ast.Constant))]
+    if not (len(fbody) == 2 and isinstance(fbody[0], ast.While) and not fbody[0].orelse and len(fbody[0].body) == 1
+            and _norm(out, fbody[0].body[0]) == "i-=1" and isinstance(fbody[1], ast.Return) and _norm(out, fbody[1].value) == "i"
+            and [a.arg for a in fs.args.args] == ["self", "i"]):
+        raise AnchorLost("rdoutput.py:_first_sample_with_same_time shape")
+    wcond = ExprTr(out, {"i": "i", "self.t.get_at(i-1)": "a", "self.t.get_at(i)": "b"}).tr(fbody[0].test)
+    L.append("/-- `_first_sample_with_same_time(i)`: `while <this test on i, a = t[i-1], b = t[i]> : i -= 1 ; return i` -/")
+    L.append("def firstSameCond (i : Int) (a b : Rat) : Bool := %s\n" % wcond)
+    gsi = out.func("get_sample_index", "RDTrajectory")
+    pol, disp, conv = None, [], False
+    for n in ast.walk(gsi):
+        if isinstance(n, ast.Compare) and len(n.ops) == 1 and isinstance(n.ops[0], ast.NotIn) and _norm(out, n.left) == "policy":
+            pol = str_list(n.comparators[0])
+        if isinstance(n, ast.If) and isinstance(n.test, ast.Compare) and _norm(out, n.test.left) == "policy" \
+                and isinstance(n.test.ops[0], ast.Eq) and len(n.body) == 1 and isinstance(n.body[0], ast.Return):
+            disp.append((const_str(n.test.comparators[0]), _norm(out, n.body[0].value)))
+        if isinstance(n, ast.Assign) and _norm(out, n) == "t=UnitValue(t,self.t.units,convert=True)":
+            conv = True
+    if pol is None or not disp:
+        raise AnchorLost("rdoutput.py:get_sample_index policy list / dispatch")
+    first = gsi.body[1] if isinstance(gsi.body[0], ast.Expr) else gsi.body[0]
+    L.append("/-- `get_sample_index`: accepted policy strings, dispatch, and whether the first statement converts the\nquery to the units of the sample times -/")
+    L.append("def samplePolicies : List String := %s" % lean_list([lean_str(p) for p in pol]))
+    L.append("def sampleDispatch : List (String × String) := %s" %
+             lean_list(["(%s, %s)" % (lean_str(a), lean_str(b)) for a, b in disp]))
+    L.append("def sampleQueryConverted : Bool := %s\n" % ("true" if conv and _norm(out, first).startswith("t=UnitValue(") else "false"))
+
+    # accessor slices: every `….reshape((…))[slice]` of get_trajectory / get_state, in source order
+    def slices(fn):
+        res = []
+        for n in ast.walk(fn):
+            if isinstance(n, ast.Subscript) and isinstance(n.value, ast.Call) and getattr(n.value.func, "attr", "") == "reshape":
+                res.append((n.lineno, n.col_offset, _norm(out, n.value.func.value), _norm(out, n.slice)))
+        return [(a, b) for _, _, a, b in sorted(res)]
+    gt = out.func("get_trajectory", "RDTrajectory")
+    gs = out.func("get_state", "RDTrajectory")
+    gp = out.func("get_trajectory_point", "RDTrajectory")
+    st, ss = slices(gt), slices(gs)
+    if len(st) != 2 or len(ss) != 2:
+        raise AnchorLost("rdoutput.py:accessor slices")
+    L.append("/-- (array reshaped, slice) of `get_trajectory` (cell, merged) and `get_state` (whole, species) -/")
+    L.append("def trajectorySlices : List (String × String) := %s" % lean_list(["(%s, %s)" % (lean_str(a), lean_str(b)) for a, b in st]))
+    L.append("def stateSlices : List (String × String) := %s" % lean_list(["(%s, %s)" % (lean_str(a), lean_str(b)) for a, b in ss]))
+    # merge: `[sum(state) for state in …]`
+    merged = None
+    for n in ast.walk(gt):
+        if isinstance(n, ast.ListComp) and len(n.generators) == 1:
+            merged = (_norm(out, n.elt), _norm(out, n.generators[0].target))
+    if merged is None:
+        raise AnchorLost("rdoutput.py:get_trajectory merge comprehension")
+    L.append("def mergeComprehension : String × String := (%s, %s)" % (lean_str(merged[0]), lean_str(merged[1])))
+
+    # how the three accessors obtain their indices, and the units they return
+    def assigns(fn):
+        res = []
+        for n in ast.walk(fn):
+            if isinstance(n, ast.Assign) and len(n.targets) == 1 and isinstance(n.targets[0], ast.Name) \
+                    and n.targets[0].id in ("species_index", "cell_index", "sample_index"):
+                res.append((n.lineno, n.targets[0].id, _norm(out, n.value)))
+        return sorted(set((b, c) for _, b, c in res))
+    for tag, fn in (("Trajectory", gt), ("State", gs), ("Point", gp)):
+        L.append("def indexSources%s : List (String × String) := %s" %
+                 (tag, lean_list(["(%s, %s)" % (lean_str(a), lean_str(b)) for a, b in assigns(fn)])))
+    units_args = []
+    for fn in (gt, gs):
+        for n in ast.walk(fn):
+            if isinstance(n, ast.Call) and getattr(n.func, "id", "") == "UnitArray" and len(n.args) >= 2:
+                units_args.append(_norm(out, n.args[1]))
+    L.append("def accessorUnits : List String := %s" % lean_list([lean_str(u) for u in units_args]))
+    L.append("def pointAccessor : String := %s" % lean_str(_norm(out, [n for n in ast.walk(gp) if isinstance(n, ast.Return)][-1].value.func)))
+    # shape methods
+    for nm in ("ncells", "nspecies", "nsamples"):
+        f = out.func(nm, "RDTrajectory")
+        L.append("def shape_%s : String := %s" % (nm, lean_str(_norm(out, f.body[-1].value))))
+    L.append("\nend Strengths.Gen")
+    return "\n".join(L) + "\n"
+
+
+# =============================================================================================
+# C16 : coarse-graining — the tests of check_index_map_validity, the aggregation subscripts of
+#       coarsegrain_system, the spreading subscripts of uncoarsegrain_trajectory_data, and the
+#       shape of the loops of coarsegrain_grid
+# =============================================================================================
+@group
+def gen_CoarsePy(repo):
+    cg = PySrc(repo, "src/strengths/coarsegrain.py")
+    L = ["namespace Strengths.Gen\n"]
+
+    # ---- check_index_map_validity: statements in order
+    chk = cg.func("check_index_map_validity")
+    body = [s for s in chk.body if not (isinstance(s, ast.Expr) and isinstance(s.value, ast.Constant))]
+    tests = []        # (tag, lean Bool expr or text)
+    order = []
+
+    def raises(stmts):
+        return len(stmts) == 1 and isinstance(stmts[0], ast.Raise)
+    env_loop = None
+    assigned = {}
+    for st in body:
+        if isinstance(st, ast.If) and raises(st.body) and not st.orelse:
+            t = _norm(cg, st.test)
+            if t.startswith("len(im)"):
+                tests.append(("imLenBad", "(len size : Int) : Bool", ExprTr(cg, {"len(im)": "len", "space.size()": "size"}).tr(st.test)))
+                order.append("length")
+            elif "im_min" in t:
+                tests.append(("imMinBad", "(mn : Int) : Bool", ExprTr(cg, {"im_min": "mn"}).tr(st.test)))
+                order.append("min")
+            elif "im_max" in t:
+                tests.append(("imMaxBad", "(mx : Int) : Bool", ExprTr(cg, {"im_max": "mx"}).tr(st.test)))
+                order.append("max")
+            else:
+                raise AnchorLost("coarsegrain.py:check_index_map_validity unknown test " + t)
+        elif isinstance(st, ast.For) and len(st.body) == 1 and isinstance(st.body[0], ast.If) and raises(st.body[0].body) \
+                and not st.body[0].orelse:
+            it, tgt, t = _norm(cg, st.iter), _norm(cg, st.target), _norm(cg, st.body[0].test)
+            if it == "im" and tgt == "i":
+                L.append("/-- element type test of `check_index_map_validity` -/\ndef imTypeTest : String := %s" % lean_str(t))
+                order.append("type")
+            elif tgt == "i" and isinstance(st.iter, ast.Call) and getattr(st.iter.func, "id", "") == "range" and len(st.iter.args) == 2:
+                lo = ExprTr(cg, {"im_max": "mx"}).tr(st.iter.args[0])
+                hi = ExprTr(cg, {"im_max": "mx"}).tr(st.iter.args[1])
+                L.append("/-- presence loop `for i in range(lo, hi): if i not in im: raise` -/")
+                L.append("def imPresenceLo (mx : Int) : Int := %s\ndef imPresenceHi (mx : Int) : Int := %s" % (lo, hi))
+                L.append("def imPresenceTest : String := %s" % lean_str(t))
+                order.append("presence")
+            else:
+                raise AnchorLost("coarsegrain.py:check_index_map_validity unknown loop " + it)
+        elif isinstance(st, ast.Assign) and len(st.targets) == 1 and isinstance(st.targets[0], ast.Name):
+            assigned[st.targets[0].id] = _norm(cg, st.value)
+        elif isinstance(st, ast.For):
+            env_loop = st
+            order.append("envloop")
+        else:
+            raise AnchorLost("coarsegrain.py:check_index_map_validity unexpected statement")
+    for k, want in (("im_max", "max(im)"), ("im_min", "min(im)"), ("env", "space.get_cell_env_array()")):
+        if assigned.get(k) != want:
+            raise AnchorLost("coarsegrain.py:check_index_map_validity %s = %s" % (k, want))
+    m = re.fullmatch(r"\[(-?\d+)foriinrange\(min\(im\),max\(im\)\+1\)\]", assigned.get("env_out", ""))
+    if not m or env_loop is None:
+        raise AnchorLost("coarsegrain.py:check_index_map_validity env_out / environment loop")
+    sentinel = int(m.group(1))
+    if _norm(cg, env_loop.iter) != "range(space.size())" or _norm(cg, env_loop.target) != "i":
+        raise AnchorLost("coarsegrain.py:check_index_map_validity environment loop header")
+    eb = list(env_loop.body)
+    skip = None
+    if isinstance(eb[0], ast.If) and len(eb[0].body) == 1 and isinstance(eb[0].body[0], ast.Continue) and not eb[0].orelse:
+        skip = ExprTr(cg, {"im[i]": "g"}).tr(eb[0].test)
+        eb = eb[1:]
+    if len(eb) != 1 or not isinstance(eb[0], ast.If):
+        raise AnchorLost("coarsegrain.py:check_index_map_validity environment loop body")
+    node = eb[0]
+    nm = {"env_out[im[i]]": "cur", "env[i]": "e"}
+    c1 = ExprTr(cg, nm).tr(node.test)
+    if not (len(node.body) == 1 and isinstance(node.body[0], ast.Assign) and _norm(cg, node.body[0]) == "env_out[im[i]]=env[i]"):
+        raise AnchorLost("coarsegrain.py:check_index_map_validity environment loop first branch")
+    if not (len(node.orelse) == 1 and isinstance(node.orelse[0], ast.If)):
+        raise AnchorLost("coarsegrain.py:check_index_map_validity environment loop elif")
+    n2 = node.orelse[0]
+    c2 = ExprTr(cg, nm).tr(n2.test)
+    if not (len(n2.body) == 1 and isinstance(n2.body[0], ast.Pass) and raises(n2.orelse)):
+        raise AnchorLost("coarsegrain.py:check_index_map_validity environment loop else raise")
+    for tag, sig, e in tests:
+        L.append("def %s %s := %s" % (tag, sig, e))
+    L.append("/-- order of the tests -/\ndef imTestOrder : List String := %s" % lean_list([lean_str(o) for o in order]))
+    L.append("/-- environment loop: initial slot value, skip test on g = im[i] (`false` when absent), first-seen test and same-environment test\non cur = env_out[im[i]], e = env[i]; anything else raises -/")
+    L.append("def envSentinel : Int := (%d : Int)" % sentinel)
+    L.append("def envSkip (g : Int) : Bool := %s" % (skip if skip is not None else "false"))
+    L.append("def envUnset (cur e : Int) : Bool := %s" % c1)
+    L.append("def envSame (cur e : Int) : Bool := %s\n" % c2)
+
+    # ---- coarsegrain_system: the two aggregation statements
+    cs = cg.func("coarsegrain_system")
+    aug = [n for n in ast.walk(cs) if isinstance(n, ast.AugAssign) and isinstance(n.op, ast.Add)]
+    nm = {"s": "s", "cgspace.size()": "ncg", "index_map[i]": "g", "system.space.size()": "n", "i": "i"}
+    found = {}
+    for a in aug:
+        tgt, val = a.target, a.value
+        if isinstance(tgt, ast.Subscript) and isinstance(val, ast.Subscript):
+            found[_norm(cg, tgt.value)] = (ExprTr(cg, nm).tr(tgt.slice), _norm(cg, val.value), ExprTr(cg, nm).tr(val.slice))
+    if sorted(found) != ["cgchstt", "cgstate"]:
+        raise AnchorLost("coarsegrain.py:coarsegrain_system aggregation statements")
+    if found["cgstate"][1] != "system.state.value" or found["cgchstt"][1] != "system.chemostats":
+        raise AnchorLost("coarsegrain.py:coarsegrain_system aggregation sources")
+    L.append("/-- `coarsegrain_system`: cgstate[dst] += state[src] ; cgchstt[dst] += chemostats[src]  (ncg = #groups, n = #cells, g = index_map[i]) -/")
+    L.append("def cgStateDst (ncg s g : Int) : Int := %s" % found["cgstate"][0])
+    L.append("def cgStateSrc (n s i : Int) : Int := %s" % found["cgstate"][2])
+    L.append("def cgChemDst (ncg s g : Int) : Int := %s" % found["cgchstt"][0])
+    L.append("def cgChemSrc (n s i : Int) : Int := %s" % found["cgchstt"][2])
+    guard = None
+    for n in ast.walk(cs):
+        if isinstance(n, ast.If) and any(isinstance(x, ast.For) for x in n.body):
+            guard = ExprTr(cg, {"index_map[i]": "g"}).tr(n.test)
+    if guard is None:
+        raise AnchorLost("coarsegrain.py:coarsegrain_system dropped-cell guard")
+    L.append("def cgKeep (g : Int) : Bool := %s" % guard)
+    clamp = None
+    for n in ast.walk(cs):
+        if isinstance(n, ast.Assign) and _norm(cg, n.targets[0]) == "cgchstt[i]":
+            clamp = _norm(cg, n.value)
+    if clamp is None:
+        raise AnchorLost("coarsegrain.py:coarsegrain_system chemostat clamp")
+    L.append("def cgChemClamp : String := %s" % lean_str(clamp))
+    sizes = sorted(set(_norm(cg, n.value) for n in ast.walk(cs) if isinstance(n, ast.Assign) and _norm(cg, n.targets[0]) in ("cgstate", "cgchstt")
+                       and isinstance(n.value, ast.ListComp)))
+    L.append("def cgArrayInit : List String := %s\n" % lean_list([lean_str(x) for x in sizes]))
+
+    # ---- coarsegrain_grid: guards and the accumulate statements, as text (loops are hand-modelled)
+    gg = cg.func("coarsegrain_grid")
+    acc = [(_norm(cg, n.target), _norm(cg, n.value)) for n in ast.walk(gg) if isinstance(n, ast.AugAssign)]
+    L.append("/-- `coarsegrain_grid`: every augmented assignment (target, value), in source order -/")
+    L.append("def cgGridAccumulate : List (String × String) := %s" %
+             lean_list(["(%s, %s)" % (lean_str(a), lean_str(b)) for a, b in acc]))
+    conds = [_norm(cg, n.test) for n in ast.walk(gg) if isinstance(n, ast.If)]
+    L.append("def cgGridTests : List String := %s" % lean_list([lean_str(c) for c in conds]))
+    asg = [(_norm(cg, n.targets[0]), _norm(cg, n.value)) for n in ast.walk(gg) if isinstance(n, ast.Assign)
+           and _norm(cg, n.targets[0]) in ("i", "j", "c", "n_cell_out", "nodes[index_map[i]].environment", "edge.distance", "distance", "grid_cell_edge")]
+    L.append("def cgGridAssign : List (String × String) := %s" % lean_list(["(%s, %s)" % (lean_str(a), lean_str(b)) for a, b in asg]))
+    app = [_norm(cg, n) for n in ast.walk(gg) if isinstance(n, ast.Call) and getattr(n.func, "attr", "") == "append"]
+    L.append("def cgGridAppends : List String := %s\n" % lean_list([lean_str(a) for a in app]))
+
+    # ---- grid_to_graph: the three face tests and the neighbour coordinates
+    g2g = cg.func("grid_to_graph")
+    faces = []
+    for n in ast.walk(g2g):
+        if isinstance(n, ast.If) and len(n.body) == 1 and isinstance(n.body[0], ast.Expr) and "edges.append" in _norm(cg, n.body[0]):
+            call = n.body[0].value.args[0]
+            kw = {k.arg: _norm(cg, k.value) for k in call.keywords}
+            faces.append((_norm(cg, n.test), kw.get("i", ""), kw.get("j", ""), kw.get("surface", ""), kw.get("distance", "")))
+    if len(faces) != 3:
+        raise AnchorLost("coarsegrain.py:grid_to_graph face tests")
+    L.append("/-- `grid_to_graph`: (test, i, j, surface, distance) of the three inner-face statements -/")
+    L.append("def g2gFaces : List (String × String × String × String × String) := %s" %
+             lean_list(["(%s)" % ", ".join(lean_str(x) for x in f) for f in faces]))
+    geo = [(_norm(cg, n.targets[0]), _norm(cg, n.value)) for n in g2g.body if isinstance(n, ast.Assign)
+           and _norm(cg, n.targets[0]) in ("edge_dst", "edge_sfc")]
+    L.append("def g2gGeometry : List (String × String) := %s\n" % lean_list(["(%s, %s)" % (lean_str(a), lean_str(b)) for a, b in geo]))
+
+    # ---- uncoarsegrain_trajectory_data
+    un = cg.func("uncoarsegrain_trajectory_data")
+    store = None
+    for n in ast.walk(un):
+        if isinstance(n, ast.Assign) and isinstance(n.targets[0], ast.Subscript) and _norm(cg, n.targets[0].value) == "data":
+            store = n
+    if store is None:
+        raise AnchorLost("coarsegrain.py:uncoarsegrain_trajectory_data store")
+    nm = {"n": "k", "state_size": "ssz", "s": "s", "ncg_space.size()": "nf", "j": "j"}
+    L.append("/-- `uncoarsegrain_trajectory_data`: data[dst] = in_state[n, s, node_index] / len(cg_nodes[node_index]) -/")
+    L.append("def uncgDst (ssz nf k s j : Int) : Int := %s" % ExprTr(cg, nm).tr(store.targets[0].slice))
+    L.append("def uncgValue : String := %s" % lean_str(_norm(cg, store.value)))
+    ssz = _assign_value(cg, un, "state_size")
+    L.append("def uncgStateSize (ns nf : Int) : Int := %s" %
+             ExprTr(cg, {"trajectory.system.network.nspecies()": "ns", "ncg_space.size()": "nf"}).tr(ssz))
+    L.append("def uncgDataInit : String := %s" % lean_str(_norm(cg, _assign_value(cg, un, "data"))))
+    L.append("def uncgInState : String := %s" % lean_str(_norm(cg, _assign_value(cg, un, "in_state"))))
+    memb = [(_norm(cg, n.test), _norm(cg, n.body[0])) for n in ast.walk(un) if isinstance(n, ast.If) and len(n.body) == 1]
+    L.append("def uncgMembers : List (String × String) := %s" % lean_list(["(%s, %s)" % (lean_str(a), lean_str(b)) for a, b in memb]))
+    loops = [(_norm(cg, n.target), _norm(cg, n.iter)) for n in ast.walk(un) if isinstance(n, ast.For)]
+    L.append("def uncgLoops : List (String × String) := %s" % lean_list(["(%s, %s)" % (lean_str(a), lean_str(b)) for a, b in loops]))
+
+    # ---- simulate_script glue
+    sim = PySrc(repo, "src/strengths/simulate.py")
+    ss = sim.func("simulate_script")
+    glue = []
+    for n in ast.walk(ss):
+        if isinstance(n, ast.If) and _norm(sim, n.test) == "cgmapisNone":
+            glue = [_norm(sim, s) for s in n.orelse]
+    if not glue:
+        raise AnchorLost("simulate.py:simulate_script cgmap branch")
+    L.append("/-- `simulate_script`, branch `cgmap is not None` -/")
+    L.append("def simulateCgGlue : List String := %s" % lean_list([lean_str(g) for g in glue]))
+    L.append("\nend Strengths.Gen")
+    return "\n".join(L) + "\n"
